@@ -1166,6 +1166,10 @@ type Data struct {
 	denormOngoing bool // true if we are doing denormalizations so avoid ops on them.
 
 	sync.RWMutex // For CAS ops.  TODO: Make more specific (e.g., point locks) for efficiency.
+
+	// Serializes element edits (POST elements, DELETE element, POST move): each rewrites
+	// whole block, label and tag lists it has read before.
+	editMu sync.Mutex
 }
 
 func (d *Data) Equals(d2 *Data) bool {
@@ -2249,8 +2253,8 @@ func (d *Data) StoreElements(ctx *datastore.VersionedCtx, r io.Reader, kafkaOff 
 		return err
 	}
 
-	// d.Lock()
-	// defer d.Unlock()
+	d.editMu.Lock()
+	defer d.editMu.Unlock()
 
 	dvid.Infof("%d annotation elements received via POST\n", len(elems))
 
@@ -2344,8 +2348,8 @@ func (d *Data) DeleteElement(ctx *datastore.VersionedCtx, pt dvid.Point3d, kafka
 	bcoord := pt.Chunk(blockSize).(dvid.ChunkPoint3d)
 	tk := NewBlockTKey(bcoord)
 
-	// d.Lock()
-	// defer d.Unlock()
+	d.editMu.Lock()
+	defer d.editMu.Unlock()
 
 	elems, err := getElements(ctx, tk)
 	if err != nil {
@@ -2422,8 +2426,8 @@ func (d *Data) MoveElement(ctx *datastore.VersionedCtx, from, to dvid.Point3d, k
 	toCoord := to.Chunk(blockSize).(dvid.ChunkPoint3d)
 	toTk := NewBlockTKey(toCoord)
 
-	// d.Lock()
-	// defer d.Unlock()
+	d.editMu.Lock()
+	defer d.editMu.Unlock()
 
 	// Alter all stored versions of this annotation using a batch.
 	store, err := d.KVStore()
